@@ -32,6 +32,7 @@ FUNCS = [
     ("distributed_shampoo/distributed_shampoo.py", "DistributedShampoo.load_distributed_state_dict"),
     ("distributed_shampoo/distributed_shampoo.py", "DistributedShampoo._construct_param_group_key"),
     ("distributed_shampoo/utils/shampoo_checkpoint_utils.py", "update_param_state_dict_object"),
+    ("distributed_shampoo/utils/shampoo_distributor.py", "Distributor._construct_local_block_info_list"),
     ("distributed_shampoo/utils/shampoo_checkpoint_utils.py", "extract_state_dict_content"),
     ("distributed_shampoo/utils/shampoo_preconditioner_list.py", "BaseShampooPreconditionerList.update_preconditioners"),
     ("distributed_shampoo/utils/shampoo_preconditioner_list.py", "AdagradPreconditionerList.update_preconditioners"),
@@ -329,9 +330,21 @@ def _raise_case(case):
 def _keys_case(case):
     import torch
     from distributed_shampoo.utils.shampoo_distributor import Distributor
+    from distributed_shampoo.distributed_shampoo import DistributedShampoo
     from distributed_shampoo import shampoo_types as st
     func = "Distributor._construct_local_block_info_list"
     out = []
+    # the param-group key is a function of the SET of parameter names of the group (order-independent), and distinguishes groups
+    gfunc = "DistributedShampoo._construct_param_group_key"
+    for names in (("a", "b", "c"), ("layer.0.weight", "layer.0.bias", "layer.10.weight"), ("w", "W", "0")):
+        ps = [torch.nn.Parameter(torch.zeros(1)) for _ in names]
+        p2k = {p: n for p, n in zip(ps, names)}
+        keys = {DistributedShampoo._construct_param_group_key({st.PARAMS: list(perm)}, p2k) for perm in itertools.permutations(ps)}
+        sub = {DistributedShampoo._construct_param_group_key({st.PARAMS: list(c)}, p2k) for r in (1, 2) for c in itertools.combinations(ps, r)}
+        ok = len(keys) == 1 and not (keys & sub) and len(sub) == 6
+        out.append(result(f"{gfunc}/order-independent-and-distinguishing[{case}/{'-'.join(names)}]", gfunc, "discharged" if ok else "violated",
+                          backend="concrete-execution (all permutations / sub-groups)", case=case,
+                          text=f"{len(keys)} distinct key(s) over all orderings of the group's parameters; different parameter sets get different keys", replay=dict(kind="groupkey")))
     for shapes in (((4, 3), (5,), (2, 2, 2)), ((7,), (7,), (7,)), ((1,), (), (3, 3, 3))):
         params = [torch.nn.Parameter(torch.zeros(s)) for s in shapes]
         D = Distributor({st.PARAMS: params, st.MAX_PRECONDITIONER_DIM: 2, st.USE_MERGE_DIMS: True})
@@ -391,9 +404,59 @@ def native_resume(cfgname, seed, T=5, dtensor=False):
     return None
 
 
+def native_resume_reordered(seed=0):
+    """save after 2 steps, load into a fresh optimizer whose (multi-parameter) group lists the same parameters in another order"""
+    import torch
+    from distributed_shampoo.distributed_shampoo import DistributedShampoo
+    torch.manual_seed(seed)
+    shapes = ((3, 2), (4,), (2, 2))
+    init = [torch.randn(s) for s in shapes]
+    grads = [[torch.randn(s) for s in shapes] for _ in range(4)]
+    kw = dict(lr=0.05, betas=(0.9, 0.99), epsilon=1e-6, momentum=0.5, max_preconditioner_dim=2, precondition_frequency=1, start_preconditioning_step=1)
+
+    def run(order, upto, load=None):
+        ps = [torch.nn.Parameter(x.clone()) for x in init]
+        names = [(f"p{j}", p) for j, p in enumerate(ps)]
+        opt = DistributedShampoo([dict(params=[ps[j] for j in order])], **kw)
+        return ps, names, opt
+
+    ps, names, opt = run((0, 1, 2), 2)
+    for t in range(2):
+        for p, g in zip(ps, grads[t]):
+            p.grad = g.clone()
+        opt.step()
+    sd = copy.deepcopy(opt.distributed_state_dict(key_to_param=iter(names)))
+    mid = [p.detach().clone() for p in ps]
+    for t in range(2, 4):
+        for p, g in zip(ps, grads[t]):
+            p.grad = g.clone()
+        opt.step()
+    final = [p.detach().clone() for p in ps]
+    ps2 = [torch.nn.Parameter(x.clone()) for x in mid]
+    names2 = [(f"p{j}", p) for j, p in enumerate(ps2)]
+    opt2 = DistributedShampoo([dict(params=[ps2[0], ps2[2], ps2[1]])], **kw)  # first member kept (it carries the step counter)
+    try:
+        opt2.load_distributed_state_dict(sd, key_to_param=iter(names2))
+    except BaseException as e:  # noqa
+        return f"loading into an optimizer whose group lists the same parameters in another order raised {type(e).__name__}: {e}"
+    for t in range(2, 4):
+        for p, g in zip(ps2, grads[t]):
+            p.grad = g.clone()
+        opt2.step()
+    for a, b in zip(ps2, final):
+        if not torch.equal(a.detach(), b):
+            return "resume with reordered group members differs from the uninterrupted run"
+    return None
+
+
 def bounded(tier, seed):
     n = 2 if tier == "quick" else 12
     evals, viol, distinct = 0, [], set()
+    bad = native_resume_reordered(seed)
+    evals += 1
+    distinct.add(("reordered", seed))
+    if bad:
+        viol.append(dict(ob="bounded/resume-with-reordered-group", func="DistributedShampoo.load_distributed_state_dict", input=dict(seed=seed), text=bad, detail=bad, replay=dict(kind="groupkey")))
     for name in CFGS:
         for k in range(n):
             bad = native_resume(name, seed * 100 + k)
@@ -424,6 +487,9 @@ def replay_file(doc):
             if bad:
                 return True, f"config {rp['cfg']} seed {s}: {bad}"
         return False, "resume is bitwise identical at every stop step"
+    if rp.get("kind") == "groupkey":
+        bad = native_resume_reordered()
+        return bool(bad), bad or "resume with the same groups enumerated in a different order is bitwise identical"
     if rp.get("kind") == "raise":
         res = _raise_case(f"raise/{rp['what']}")
         badr = [x for x in res if x["status"] != "discharged"]
